@@ -91,6 +91,16 @@ theorem closed_run {W : World} {R : List Sys} (hc : closedB W R = true) : ∀ (a
   | nil => intro σ h; exact h
   | cons a as ih => intro σ h; exact ih _ (closed_step hc h a)
 
+/-- a second free world: no extended master secret, no SRTP profile offered, no expected fingerprint on
+the client, an expected fingerprint on the server (which, C02's finding, it never gets to check) -/
+def freeCrypto1 : Crypto :=
+  { freeCrypto with chDecode := fun b => if b = [1] then some ([0xC], false, []) else none,
+                    shDecode := fun b => if b = [2] then some ([0xD], false, none) else none }
+
+def W1 : World := { W0 with C := freeCrypto1, fc := none, fs := some [0xEE] }
+
+def reach1 : List Sys := closure W1 10 [Sys.init W1]
+
 /-! ### the three finite checks (kernel evaluation of the model; no axioms beyond the usual) -/
 
 theorem reach0_init : Sys.init W0 ∈ reach0 := by decide +kernel
@@ -113,5 +123,13 @@ theorem reach0_no_failure : (reach0.all fun σ =>
   decide +kernel
 
 theorem reach0_length : reach0.length = 9 := by decide +kernel
+
+theorem reach1_init : Sys.init W1 ∈ reach1 := by decide +kernel
+theorem reach1_closed : closedB W1 reach1 = true := by decide +kernel
+theorem reach1_good : (reach1.all fun σ => bothConnected (fairRound W1 (fairRound W1 σ))) = true := by decide +kernel
+theorem reach1_agree : (reach1.all fun σ =>
+    !(σ.c.conn == .connected && σ.s.conn == .connected) ||
+      (decide (σ.c.connKeys = σ.s.connKeys) && decide (σ.c.connSrtp = σ.s.connSrtp) && σ.c.connKeys.isSome)) = true := by
+  decide +kernel
 
 end RtcModel.DtlsFlights
